@@ -1636,3 +1636,9 @@ mod tests {
 #[cfg(feature = "verif-hooks")]
 #[path = "verif_hooks_c11_rib.rs"]
 pub mod verif_hooks_c11_rib;
+
+/// Verification hooks for the per-ingress listing (feature `verif-hooks`,
+/// add-only). A child module because the stores are private fields.
+#[cfg(feature = "verif-hooks")]
+#[path = "verif_hooks_vribquery_rib.rs"]
+pub mod verif_hooks_vribquery_rib;
